@@ -10,7 +10,10 @@
    (section RSDelivery, parameter cls = Reed-Solomon or not).
    Model/ObjRecv.v after fixes D10 / D28 / D33 / D34: RaptorQ discards a symbol whose size is not E and refuses scheme
    parameters outside the raptorq crate's range; Raptor pads a short symbol with zeros up to ceil(block length / k)
-   and refuses k outside 1..8192; FEC 2 (FRS2M) has no decoder at all. *)
+   and refuses k outside 1..8192; FEC 2 (FRS2M) has no decoder at all.
+   After D47: BlockDecoder::push discards a symbol longer than E for every scheme: delivery needs payloads of at most E
+   bytes ([sized]; Reed-Solomon: premise rs_rep_sized on the sender's repair symbols, RaptorQ / Raptor: fq_sized_pkt);
+   safety needs nothing new. *)
 From FluteV Require Import Model.Partition Spec.C07Spec Proofs.PartitionProofs Model.ObjRecv
   Spec.RecvSpec Spec.SessionSpec Proofs.SessionProofs Proofs.C02Full.
 From Coq Require Import Lia FinFun.
@@ -247,19 +250,22 @@ Section RSDelivery.
   Definition stored (s : N) (x : list N) : list N :=
     match ro_fec oti with FRaptor => pad_to (raptor_symbol_size (bsz s) (kof s)) x | _ => x end.
   (* RaptorQ keeps only the symbols of E bytes (fixes D10) *)
-  Definition sized (x : list N) : Prop := ro_fec oti = FRaptorQ -> lenN_ x = e.
+  Definition sizedq (x : list N) : Prop := ro_fec oti = FRaptorQ -> lenN_ x = e.
+  (* D47: every scheme discards a symbol longer than E before it reaches the decoder; a payload is kept when
+     it has at most E bytes and, for RaptorQ, exactly E *)
+  Definition sized (x : list N) : Prop := lenN_ x <= e /\ sizedq x.
   Definition accb (x : list N) : bool := match ro_fec oti with FRaptorQ => lenN_ x =? e | _ => true end.
   Definition shard_ok (s : N) (p : N * list N) : Prop :=
-    esi_ok s (fst p) /\ snd p = stored s (esym s (fst p)) /\ sized (snd p).
+    esi_ok s (fst p) /\ snd p = stored s (esym s (fst p)) /\ sizedq (snd p).
   Lemma stored_cls s x : cls = true -> stored s x = x.
   Proof. clear Hfec. unfold cls, stored. intros H. destruct (ro_fec oti); try discriminate H; reflexivity. Qed.
-  Lemma accb_sized x : accb x = true <-> sized x.
+  Lemma accb_sized x : accb x = true <-> sizedq x.
   Proof.
-    clear Hfec. unfold accb, sized. destruct (ro_fec oti); try (split; [intros _ X; discriminate X|reflexivity]).
+    clear Hfec. unfold accb, sizedq. destruct (ro_fec oti); try (split; [intros _ X; discriminate X|reflexivity]).
     split; [intros H _; apply N.eqb_eq; exact H|intros H; apply N.eqb_eq; apply H; reflexivity].
   Qed.
-  Lemma sized_stored s x : sized x -> sized (stored s x).
-  Proof. clear Hfec. unfold sized, stored. intros H F. rewrite F in *. apply H. reflexivity. Qed.
+  Lemma sized_stored s x : sizedq x -> sizedq (stored s x).
+  Proof. clear Hfec. unfold sizedq, stored. intros H F. rewrite F in *. apply H. reflexivity. Qed.
 
   (* what a decoded block must be: the block of the object, possibly followed by padding if it is the last *)
   Definition Good (s : N) (d : list N) : Prop := take (bln s) d = blkb s /\ (s + 1 < n -> lenN_ d = bln s).
@@ -300,7 +306,13 @@ Section RSDelivery.
   Proof. split; [reflexivity|discriminate]. Qed.
 
   (* bd_push of a Reed-Solomon block that is allocated, not completed and has no data yet *)
-  Lemma bd_push_rs t s esi payload d : cls = true ->
+  Lemma bd_push_long t s esi payload d : e < lenN_ payload ->
+    bd_completed d = false -> bd_alloc d = true -> bd_push E t oti s esi payload d = (d, false).
+  Proof.
+    intros Hl Hc Ha. unfold bd_push. rewrite Hc, Ha. cbn [negb]. fold e.
+    destruct (N.ltb_spec e (lenN_ payload)) as [_|G]; [reflexivity|lia].
+  Qed.
+  Lemma bd_push_rs t s esi payload d : cls = true -> lenN_ payload <= e ->
     bd_completed d = false -> bd_alloc d = true -> bd_data d = None ->
     bd_push E t oti s esi payload d =
     (let k := bd_k d in
@@ -312,11 +324,12 @@ Section RSDelivery.
                  else None in
      (mk_bdec (is_some_b data) true (bd_size d) k sh data true, false)).
   Proof.
-    intros Hcls Hc Ha Hd. unfold bd_push. rewrite Hc, Ha, Hd. cbn [negb]. fold par e.
+    intros Hcls Hl Hc Ha Hd. unfold bd_push. rewrite Hc, Ha, Hd. cbn [negb]. fold par e.
+    destruct (N.ltb_spec e (lenN_ payload)) as [G|_]; [lia|].
     unfold cls in Hcls. destruct (ro_fec oti); try discriminate Hcls; cbv iota beta zeta; rewrite andb_true_r; reflexivity.
   Qed.
   (* ... of a RaptorQ / Raptor block *)
-  Lemma bd_push_fq t s esi payload d : cls = false ->
+  Lemma bd_push_fq t s esi payload d : cls = false -> lenN_ payload <= e ->
     bd_completed d = false -> bd_alloc d = true -> bd_data d = None ->
     bd_push E t oti s esi payload d =
     (let k := bd_k d in
@@ -325,13 +338,14 @@ Section RSDelivery.
      let data := e_fec E t (ro_fec oti) s k e (bd_size d) sh in
      (mk_bdec (is_some_b data) true (bd_size d) k sh data true, false)).
   Proof.
-    intros Hcls Hc Ha Hd. unfold bd_push. rewrite Hc, Ha, Hd. cbn [negb]. fold par e.
+    intros Hcls Hl Hc Ha Hd. unfold bd_push. rewrite Hc, Ha, Hd. cbn [negb]. fold par e.
+    destruct (N.ltb_spec e (lenN_ payload)) as [G|_]; [lia|].
     unfold cls in Hcls. unfold accb. destruct (ro_fec oti); try discriminate Hcls; try discriminate Hfec;
       cbv iota beta zeta; rewrite andb_true_r; reflexivity.
   Qed.
 
   Lemma push_shards s esi payload (acc : bool) sh0 : NoDup (map fst sh0) -> Forall (shard_ok s) sh0 ->
-    esi_ok s esi -> payload = stored s (esym s esi) -> (acc = true -> sized payload) ->
+    esi_ok s esi -> payload = stored s (esym s esi) -> (acc = true -> sizedq payload) ->
     let sh := if acc && negb (has_esi esi sh0) then sh0 ++ [(esi, payload)] else sh0 in
     NoDup (map fst sh) /\ Forall (shard_ok s) sh /\ (acc = true -> has_esi esi sh = true)
     /\ (forall i, has_esi i sh0 = true -> has_esi i sh = true).
@@ -367,14 +381,18 @@ Section RSDelivery.
     snd r = false /\ BlockInit s (fst r) /\ (sized payload -> has_esi esi (bd_shards (fst r)) = true)
     /\ (forall i, has_esi i (bd_shards d) = true -> has_esi i (bd_shards (fst r)) = true).
   Proof.
-    intros [I1 I2 I3 I4 I5 I6 I7 I8 I9] Hc Hesi Hpay. destruct (I8 Hc) as [Hd _].
-    cbv zeta. destruct cls eqn:Hcls.
+    intros BI Hc Hesi Hpay. pose proof BI as [I1 I2 I3 I4 I5 I6 I7 I8 I9]. destruct (I8 Hc) as [Hd _].
+    cbv zeta. destruct (N.ltb_spec e (lenN_ payload)) as [Hlong|Hl].
+    { (* D47: too long, discarded *)
+      rewrite (bd_push_long toi s esi payload d Hlong Hc I4). cbn [fst snd].
+      split; [reflexivity|]. split; [exact BI|]. split; [intros [Hz _]; lia|intros i H; exact H]. }
+    destruct cls eqn:Hcls.
     - assert (Hpay' : payload = stored s (esym s esi)) by (rewrite stored_cls by exact Hcls; exact Hpay).
-      assert (Hsz : true = true -> sized payload).
+      assert (Hsz : true = true -> sizedq payload).
       { intros _ F. unfold cls in Hcls. rewrite F in Hcls. discriminate. }
       destruct (push_shards s esi payload true (bd_shards d) I6 I7 Hesi Hpay' Hsz) as (S1 & S2 & S3 & S4).
       cbv zeta in S1, S2, S3, S4. cbn [andb] in S1, S2, S3, S4. specialize (S3 eq_refl).
-      rewrite (bd_push_rs toi s esi payload d Hcls Hc I4 Hd). cbv zeta. rewrite I2, I3.
+      rewrite (bd_push_rs toi s esi payload d Hcls Hl Hc I4 Hd). cbv zeta. rewrite I2, I3.
       pose proof (Hesi Hcls) as Hlt. destruct (N.ltb_spec esi (kof s + par)) as [_|G]; [|lia]. cbn [andb].
       set (sh := if negb (has_esi esi (bd_shards d)) then bd_shards d ++ [(esi, payload)] else bd_shards d) in *.
       clearbody sh. cbn [fst snd]. split; [reflexivity|]. split; [|split; [intros _; exact S3|exact S4]].
@@ -398,16 +416,16 @@ Section RSDelivery.
       + destruct (e_fec E toi (ro_fec oti) s (kof s) e (bsz s) sh) as [dd|] eqn:O.
         * right. exists dd. split; [reflexivity|]. exact (Hsound s sh dd I5 (fun _ => Hk) S1 S2 O).
         * left. split; [reflexivity|]. intros HM HD. exact (HM s sh I5 HD S1 S2 O).
-    - rewrite (bd_push_fq toi s esi payload d Hcls Hc I4 Hd). cbv zeta. rewrite I2, I3. fold (stored s payload).
+    - rewrite (bd_push_fq toi s esi payload d Hcls Hl Hc I4 Hd). cbv zeta. rewrite I2, I3. fold (stored s payload).
       assert (Hpay' : stored s payload = stored s (esym s esi)) by (rewrite Hpay; reflexivity).
-      assert (Hsz : accb payload = true -> sized (stored s payload)).
+      assert (Hsz : accb payload = true -> sizedq (stored s payload)).
       { intros H. apply sized_stored. apply accb_sized. exact H. }
       destruct (push_shards s esi (stored s payload) (accb payload) (bd_shards d) I6 I7 Hesi Hpay' Hsz) as (S1 & S2 & S3 & S4).
       cbv zeta in S1, S2, S3, S4.
       set (sh := if accb payload && negb (has_esi esi (bd_shards d))
                  then bd_shards d ++ [(esi, stored s payload)] else bd_shards d) in *.
       clearbody sh. cbn [fst snd]. split; [reflexivity|].
-      split; [|split; [intros Hz; apply S3; apply accb_sized; exact Hz|exact S4]].
+      split; [|split; [intros [_ Hz]; apply S3; apply accb_sized; exact Hz|exact S4]].
       apply push_finish; [exact I5|exact S1|exact S2|].
       destruct (e_fec E toi (ro_fec oti) s (kof s) e (bsz s) sh) as [dd|] eqn:O.
       + right. exists dd. split; [reflexivity|].
@@ -1264,13 +1282,28 @@ Proof.
   apply genuineb_spec. exact H.
 Qed.
 
+(* D47: a symbol longer than E is discarded by the block decoder.  The source symbols of a genuine packet are
+   symbols of the padded object (E bytes); the repair symbols are the sender's: they must fit too *)
+Definition rs_rep_sized (oti : roti) (rep : N -> N -> list N) : Prop := forall s i, lenN_ (rep s i) <= ro_e oti.
+Lemma psym_le oti content j : lenN_ (psym oti content j) <= ro_e oti.
+Proof. unfold psym. rewrite lenN_take. lia. Qed.
+Lemma esym_le oti content rep al as_ nal s i : rs_rep_sized oti rep -> lenN_ (esym oti content rep al as_ nal s i) <= ro_e oti.
+Proof. intros H. unfold esym. destruct (cls oti && _); [apply psym_le|apply H]. Qed.
+Lemma rs_genuine_sized oti content rep al as_ nal n p :
+  ro_fec oti = FRS28 \/ ro_fec oti = FRS28US -> rs_rep_sized oti rep ->
+  genuine oti content rep al as_ nal n p -> sized oti (a_payload p).
+Proof.
+  intros Hf Hr (_ & _ & _ & Hp). split; [rewrite Hp; apply esym_le; exact Hr|].
+  intros F. destruct Hf as [X|X]; rewrite X in F; discriminate.
+Qed.
+
 (* T1rs - C02 for Reed-Solomon: every recoverable reception (k distinct symbols of every block among
    ESI < k + parity, any order, any duplication) delivers the object byte-exact, GIVEN an MDS decoder *)
 Theorem rs_recoverable_delivers E oti content rep toi max fid files inst md5 pkts :
   let L := lenN_ content in
   rs_scheme_ok oti L -> rs_blocks_ok oti L -> fdt_entry_for files inst toi oti L md5 ->
   writer_accepts E toi -> writes_succeed E toi -> md5_good E content md5 ->
-  rs_oracle_mds E oti content rep toi ->
+  rs_oracle_mds E oti content rep toi -> rs_rep_sized oti rep ->
   rs_mem_need oti L <= max -> nb_blocks_of oti L <= 4097 ->
   Forall (fun p => rs_genuine_pkt oti content rep p = true) pkts ->
   rs_close_flag_ok oti L pkts ->
@@ -1281,7 +1314,7 @@ Theorem rs_recoverable_delivers E oti content rep toi max fid files inst md5 pkt
   /\ forall m, complete_exact content (m, calls_of (toi, 0%nat) (c_log c)) = true
                 /\ P_C02_object (rs_recoverable oti L pkts) content [(m, calls_of (toi, 0%nat) (c_log c))] = true.
 Proof.
-  intros L (Hrsf & He & Hb & HL & Hu) Hrs (f & F1 & F2 & F3 & F4 & F5) (A1 & A2) Hwr Hmd5 Hor Hmax Hn G Cl Rec.
+  intros L (Hrsf & He & Hb & HL & Hu) Hrs (f & F1 & F2 & F3 & F4 & F5) (A1 & A2) Hwr Hmd5 Hor Hrz Hmax Hn G Cl Rec.
   destruct (rs_is_cls oti Hrsf) as [Hcls Hfec].
   destruct (partition_of oti L) as [[[al as_] nal] n] eqn:Hpart.
   pose proof (top_sound E oti content rep toi al as_ nal n Hcls He Hb HL Hpart (rs_oracle_mds_sound _ _ _ _ _ Hor)) as Hsound.
@@ -1299,7 +1332,8 @@ Proof.
     - split; [split; [exact Hwr|exact Hmd5]|]. split; [rewrite M_mem_need; exact Hmax|]. split; [rewrite <- Hnb; exact Hn|].
       apply (rs_blocks_ok_spec oti L); assumption.
     - apply rs_genuine_pkt_spec; [exact Hpart|exact G].
-    - apply Forall_forall. intros p _ F. destruct Hrsf as [X|X]; rewrite X in F; discriminate.
+    - eapply Forall_impl; [|apply rs_genuine_pkt_spec; [exact Hpart|exact G]].
+      intros p Hp. exact (rs_genuine_sized oti content rep al as_ nal n p Hrsf Hrz Hp).
     - intros pre p post Eq Hp. rewrite app_nil_r. apply Cov. apply (Cl pre p post Eq Hp).
     - apply Cov. exact Rec. }
   destruct (run E pkts (o0, c0)) as [o c]. destruct D' as [D1 D2].
@@ -1435,6 +1469,9 @@ Proof.
     all: exfalso; repeat match goal with H : NoDup (_ :: _) |- _ => inversion H; clear H; subst end; cbn [In] in *; tauto.
 Qed.
 
+Lemma exr_rep_sized : rs_rep_sized exr_oti exr_rep.
+Proof. intros s i. unfold exr_rep. destruct (s =? 0); vm_compute; discriminate. Qed.
+
 (* the delivery theorem applies to this instance: its premises, the oracle hypothesis included, are satisfiable *)
 Example exr_delivery_by_theorem :
   let (o, c) := receive env_xor 1 exr_files None 7 1000 exr_pkts in
@@ -1455,6 +1492,7 @@ Proof.
     - intros i. reflexivity.
     - exact I.
     - exact xor_dec_mds.
+    - exact exr_rep_sized.
     - vm_compute. discriminate.
     - vm_compute. discriminate.
     - repeat constructor.
@@ -1492,12 +1530,28 @@ Example rs_parity_zero_refuted :
   /\ summary 7 (receive env_xor 1 exz_files None 7 1000 exz_pkts) = (Errored, [CallOpen true; CallError]).
 Proof. vm_compute. repeat split. Qed.
 
+(* REFUTATION C (D47, rs_rep_sized is needed): the same reception with repair symbols of 3 bytes for E = 2 (the
+   encoder [exl_rep]): every packet is genuine for exl_rep and the reception is recoverable, but the block decoder
+   discards the two repair symbols, the decoder is never consulted and the object stays Receiving *)
+Definition exl_rep (s i : N) : list N := exr_rep s i ++ [0].
+Definition exl_pkts : list apkt :=
+  [rs_pkt 7 1 1 false [5; 0; 0]; rs_pkt 7 0 2 false [2; 6; 0]; rs_pkt 7 1 1 false [5; 0; 0];
+   rs_pkt 7 0 0 false [1; 2]; rs_pkt 7 0 2 false [2; 6; 0]].
+Example rs_long_repair_refuted :
+  forallb (rs_genuine_pkt exr_oti exr_content exl_rep) exl_pkts = true
+  /\ rs_recoverable exr_oti 5 exl_pkts = true
+  /\ lenN_ (exl_rep 0 2) = 3 /\ ro_e exr_oti = 2
+  /\ summary 7 (receive env_xor 1 exr_files None 7 1000 exl_pkts) = (Receiving, [CallOpen true]).
+Proof. vm_compute. repeat split. Qed.
+
 (* FEC 129: 5 bytes, E = 2, B = 1 (3 blocks of one symbol), one parity symbol per block (a copy) *)
 Definition exu_oti : roti := mk_roti FRS28US 2 1 1 None.
 Definition exu_rep (s i : N) : list N := if s =? 0 then [1; 2] else if s =? 1 then [3; 4] else [5; 0].
 Definition exu_files : list fdtfile := [mk_ff 7 CNull (Some exu_oti) 5 None None false].
 Definition exu_pkts : list apkt :=
   [us_pkt 7 2 1 1 false [5; 0]; us_pkt 7 1 1 0 false [3; 4]; us_pkt 7 0 1 1 false [1; 2]].
+Lemma exu_rep_sized : rs_rep_sized exu_oti exu_rep.
+Proof. intros s i. unfold exu_rep. destruct (s =? 0); [|destruct (s =? 1)]; vm_compute; discriminate. Qed.
 
 (* REFUTATION B (FEC 129, max_size_allocated = transfer length): the receiver accounts k * E = 2 bytes for the
    last block whose length is 1, so 3 blocks need 6 > 5 bytes: Errored with the limit 5, delivered with 6 *)
@@ -1551,6 +1605,7 @@ Proof.
     - intros i. reflexivity.
     - exact I.
     - exact xor_dec_mds_129.
+    - exact exu_rep_sized.
     - vm_compute. discriminate.
     - vm_compute. discriminate.
     - repeat constructor.
@@ -1601,9 +1656,10 @@ Definition fq_oracle_complete (E : env) (oti : roti) (content : list N) (enc : N
 
 Definition fq_genuine_pkt (oti : roti) (content : list N) (enc : N -> N -> list N) (p : apkt) : bool :=
   let '(al, as_, nal, n) := partition_of oti (lenN_ content) in genuineb oti content enc al as_ nal n p.
-(* RaptorQ: the payload has exactly E bytes (the sender pads the last source symbol); needed for DELIVERY only *)
+(* RaptorQ: the payload has exactly E bytes (the sender pads the last source symbol); Raptor (D47): at most E bytes
+   (a longer symbol is discarded by the block decoder); needed for DELIVERY only *)
 Definition fq_sized_pkt (oti : roti) (p : apkt) : bool :=
-  match ro_fec oti with FRaptorQ => lenN_ (a_payload p) =? ro_e oti | _ => true end.
+  match ro_fec oti with FRaptorQ => lenN_ (a_payload p) =? ro_e oti | _ => lenN_ (a_payload p) <=? ro_e oti end.
 (* the recoverability premise of Spec/SessionSpec for the other schemes: every source symbol of every block *)
 Definition fq_recoverable (oti : roti) (L : N) (pkts : list apkt) : bool :=
   blocks_recoverable false 0 (source_ks oti L) 0 (map (rs_pid oti) pkts).
@@ -1697,7 +1753,11 @@ Proof.
 Qed.
 Lemma fq_sized_pkt_spec oti pkts :
   Forall (fun p => fq_sized_pkt oti p = true) pkts -> Forall (fun p => sized oti (a_payload p)) pkts.
-Proof. intros F. eapply Forall_impl; [|exact F]. intros p H. apply accb_sized. exact H. Qed.
+Proof.
+  intros F. eapply Forall_impl; [|exact F]. intros p H. unfold fq_sized_pkt in H. unfold sized, sizedq.
+  destruct (ro_fec oti); try (apply N.leb_le in H; split; [exact H|discriminate]).
+  apply N.eqb_eq in H. split; [lia|intros _; exact H].
+Qed.
 
 (* T1fq - C02 for RaptorQ / Raptor: a reception with every source symbol of every block (plus any repair
    symbols, any order, any duplication) delivers the object byte-exact, GIVEN a sound decoder that answers
